@@ -29,7 +29,7 @@ void pub_op(int kind) {
     else if (kind == 2) { c.closed = 1; c.pub->close(); }
     else { c.kicked = 1; c.pub->kick(c.sub); }
 }
-void injected() { pub_op(bkind); }
+void injected() { vf_other_thread other; pub_op(bkind); }     // the publisher thread has its own (normal-mode) coroutine-queue state
 
 async<void> reader() {
     Ctx &c = *cx;
